@@ -84,7 +84,7 @@ def extra(ctx, cfg, results):
     exe = clilib.anthem_exe()
     fake = clilib.fake_vampire_dir()
     thorough = ctx.tier == "thorough"
-    n_gen = 150 if thorough else 30
+    n_gen = 300 if thorough else 80
     r = clilib.rng(ctx, "det")
     dist = {"cases": {}, "processes": 0, "problem_files_compared": 0, "nonempty_outputs": 0, "n1_vs_n8_cases": 0, "rejected_cases": 0}
     with clilib.Scratch("C18det") as scratch:
